@@ -11,7 +11,9 @@ the code is OBSERVED here, per generated history:
   vs cells already in the heap), `np.shares_memory` is evaluated between every buffer of a new result cell and every
   buffer in the heap (aliasing = the aliased old cell is counted as reachable from the result);
 * results of operations whose signature says `copy` are mutated in place (every buffer, every mutable container, the
-  row labels buffer) and the pool is re-snapshotted (`mutate-the-result-then-re-snapshot`), then restored.
+  row labels buffer) and the pool is re-snapshotted (`mutate-the-result-then-re-snapshot`), then restored; results made
+  by deepcopy get two more probes: the cell objects inside object columns get a member (probe 2), and everything INSIDE
+  the cell objects and containers is edited at every depth (probe 3: record fields, nested lists, scalar members).
 
 The observation is sent to the Lean driver (`c14.check`), which evaluates the SAME definitions the theorems are stated
 against (`Spec.Effects.frameB`, `freshB`; `Model.Effects.within`, `run`).
@@ -37,7 +39,16 @@ RULE = ("histories of 1-10 operations over charts of the five games (0-12 hits, 
         "list of the pool, a cut-down list or a hand-made DataFrame, all snapshotted as arguments; lists are built from a frame, "
         "by `from_dict` or by `empty`+assignment; 45% of the steps take the newest compatible object of the pool, i.e. "
         "second-generation inputs; move targets are arbitrary or the list's current first/last offset, empty lists included; "
-        "Quaver notes carry 0-4 key sounds (names or {Sample, Volume} entries) in arbitrary order; the class-level list defaults of `_props` are cells of the heap from the start); distinct = distinct canonical JSON; non-trivial = "
+        "Quaver notes carry 0-4 key sounds in arbitrary order: names, {Sample, Volume} records as `QuaMap.read` hands them over, records "
+        "holding further lists / records, lists of lists (mutable state at depth 2-4 inside one cell); a third of the Quaver charts "
+        "reach the pool through `QuaMap.read` of their own text; every deepcopy-based result is changed in place at every depth — "
+        "cells replaced, cell lists appended to, every record field / nested element edited — and the whole pool re-observed; "
+        "the rest of the public surface of TimedList/HoldList/BpmList/Map/MapSet/ConvertBase/Pattern is drawn too: int/iloc/loc "
+        "indexing, iteration, from_dict (client dicts of columns or of rows), empty, df, column getters, to_numpy, describe, "
+        "first/last offsets, time_diff, len, repr, the five comparisons, head/tail_offset, current_bpm, snap_offsets, "
+        "to_timing_map, ave_bpm, cast (with the caller's mapping dict), m[Class]/m.hits/m.notes, metadata, describe, stack, "
+        "iteration/items/indexing of sets, write_file of the four writers (temporary directory), Pattern.v_mask/h_mask/len; "
+        "the class-level list defaults of `_props` are cells of the heap from the start); distinct = distinct canonical JSON; non-trivial = "
         "at least one call returned and its arguments held at least one non-empty frame")
 ASSUMPTIONS = [
     "effect signatures are observed, not proved: the theorems are about any behaviour within the table's signatures, the "
@@ -142,8 +153,23 @@ def gen_keysounds(rng):
     `{Sample, Volume}` entries"""
     r = rng.random()
     k = 0 if r < 0.4 else 1 if r < 0.6 else rng.choice([2, 2, 3, 4])
-    if rng.random() < 0.25:
+    r = rng.random()
+    if r < 0.3:
+        # records, as `QuaMap.read` hands them over unchanged (mutable state at depth 2 of the cell)
         return [dict(Sample=rng.randint(1, 9), Volume=rng.choice([20, 50, 100])) for _ in range(k)]
+    if r < 0.4:
+        # what a client may build: records that hold further lists / records (depth 3, 4), lists of lists
+        out = []
+        for _ in range(k):
+            q = rng.random()
+            if q < 0.4:
+                out.append(dict(Sample=rng.randint(1, 9), Volume=rng.choice([20, 50, 100]),
+                                Layers=[rng.choice(KS_NAMES) for _ in range(rng.randint(0, 2))]))
+            elif q < 0.7:
+                out.append(dict(Sample=rng.randint(1, 9), Opt=dict(Pan=rng.choice([0, 5]), Fx=[rng.randint(0, 3)])))
+            else:
+                out.append([rng.choice(KS_NAMES), [rng.randint(0, 3)]])
+        return out
     return [rng.choice(KS_NAMES) for _ in range(k)]
 
 
@@ -215,7 +241,12 @@ def gen_map(rng, game, keys, small=False, large=False):
         lists[slot] = gen_list(rng, game, slot, keys, n, flags)
     if not lists["hits"]["cols"]["offset"] and not lists["holds"]["cols"]["offset"]:
         lists["hits"] = gen_list(rng, game, "hits", keys, rng.randint(1, 4), flags)
-    return dict(lists=lists, meta=gen_meta(rng, game, keys, True))
+    out = dict(lists=lists, meta=gen_meta(rng, game, keys, True))
+    if game == "quaver":
+        # a third of the Quaver charts reach the pool through the real reader (`QuaMap.read` of the chart's own text):
+        # cells, records and metadata are then the objects the reader makes
+        out["via"] = rng.choice(["build", "build", "read"])
+    return out
 
 
 def gen_meta(rng, game, keys, per_map):
@@ -245,6 +276,21 @@ LIST_OPS = ["list.after", "list.before", "list.between", "list.mask", "list.sort
             "list.move_start_to", "list.move_end_to", "list.deepcopy", "list.wrap", "list.slice"]
 
 
+# the rest of the public surface of TimedList / HoldList / BpmList (queries, constructors, accessors)
+LIST_OPS += ["list.getitem_int", "list.iter", "list.from_dict", "list.empty", "list.df", "list.column", "list.to_numpy",
+             "list.describe", "list.first_offset", "list.last_offset", "list.first_last_offset", "list.time_diff",
+             "list.len", "list.repr", "list.cmp", "hold.head_offset", "hold.tail_offset", "bpm.current_bpm",
+             "bpm.snap_offsets", "bpm.to_timing_map", "bpm.ave_bpm", "list.cast", "list.iloc", "list.loc"]
+LISTLIKE = ("list.", "hold.", "bpm.")
+MAP_OPS = ["map.getitem", "map.metadata", "map.describe", "map.stack", "map.repr", "map.metadata_in_set", "map.describe_in_set"]
+SET_OPS = ["mapset.iter", "mapset.items", "mapset.getitem", "mapset.describe", "mapset.stack", "mapset.repr"]
+WRITERS = dict(osu="map", quaver="map", bms="map", sm="mapset")
+
+
+def is_listop(op):
+    return op.startswith(LISTLIKE)
+
+
 def applicable_ops(game, kinds):
     """ops applicable to a (statically simulated) pool: kinds = list of (kind, game)"""
     ops = []
@@ -254,21 +300,23 @@ def applicable_ops(game, kinds):
     for g in GAMES:
         if has("map", g):
             ops += ["map.deepcopy", "map.rate", "alg.full_ln", "alg.scroll_speed", "alg.dominant_bpm", "ptn.from_note_lists"]
+            # charts of StepMania / O2Jam describe themselves with the set they belong to as a second argument
+            ops += [o for o in MAP_OPS if o.endswith("_in_set") == (g in ("sm", "o2jam"))]
             if g in ("osu", "quaver"):
                 ops += ["alg.sv_normalize"]
             if g == "osu":
                 ops += ["alg.hitsound_copy"]
             if g in ("osu", "quaver", "bms"):
-                ops += [f"write.{g}"] + [f"conv.{c}.convert" for c in CONVERTERS[g]]
+                ops += [f"write.{g}", f"write_file.{g}"] + [f"conv.{c}.convert" for c in CONVERTERS[g]]
         if has("mapset", g):
-            ops += ["mapset.deepcopy", "mapset.rate"]
+            ops += ["mapset.deepcopy", "mapset.rate"] + SET_OPS
             ops += [f"conv.{c}.convert" for c in CONVERTERS[g]]
             if g == "sm":
-                ops += ["write.sm"]
+                ops += ["write.sm", "write_file.sm"]
             if g == "o2jam":
                 ops += ["conv.O2JToSM.convert_merge"]
     if has("pattern"):
-        ops += ["ptn.group"]
+        ops += ["ptn.group", "ptn.len", "ptn.v_mask", "ptn.h_mask"]
     if has("groups"):
         ops += ["ptn.combinations"]
     return sorted(set(ops))
@@ -276,7 +324,7 @@ def applicable_ops(game, kinds):
 
 def result_kinds(op, game_of_src):
     """static (kind, game) entries a successful call adds to the pool"""
-    if op.startswith("list."):
+    if is_listop(op):
         return [("list", game_of_src)]
     if op in ("map.deepcopy", "map.rate", "alg.full_ln", "alg.hitsound_copy"):
         return [("map", game_of_src)]
@@ -321,6 +369,39 @@ def gen_step(rng, op, game):
         a = dict(to=g_off(rng), at=rng.choice(["any", "any", "first", "last", "same"]))
     elif op == "list.slice":
         a = dict(a=rng.randint(0, 3), b=rng.randint(2, 8))
+    elif op == "list.getitem_int":
+        a = dict(i=rng.randrange(0, 64))
+    elif op == "list.from_dict":
+        # the client's own dict of columns / list of row dicts, cut from a list of the pool
+        a = dict(rows_form=rng.random() < 0.4, cols=rng.getrandbits(12), rows=rng.randint(0, 4))
+    elif op == "list.empty":
+        a = dict(rows=rng.randint(0, 3))
+    elif op == "list.column":
+        a = dict(i=rng.randrange(0, 16))
+    elif op in ("list.iloc", "list.loc"):
+        a = dict(a=rng.randint(0, 3), b=rng.randint(1, 8), fancy=rng.random() < 0.5)
+    elif op in ("list.time_diff", "bpm.ave_bpm"):
+        a = dict(last=rng.choice([None, None, 7000, 12345.5]))
+    elif op == "list.cmp":
+        a = dict(rel=rng.choice(["eq", "gt", "ge", "lt", "le"]), self_=rng.random() < 0.5)
+    elif op == "bpm.current_bpm":
+        a = dict(offset=g_off(rng), sort=rng.random() < 0.7)
+    elif op == "bpm.snap_offsets":
+        a = dict(nths=rng.choice([1, 2, 4, 0.5]), last=rng.choice([None, 7000, 9000.5]))
+    elif op == "list.cast":
+        a = dict(target=rng.choice(GAMES), literal=rng.random() < 0.4)
+    elif op == "map.getitem":
+        a = dict(what=rng.choice(["hits", "holds", "bpms", "NoteList", "TimedList", "p_hits", "p_holds", "p_bpms", "notes"]))
+    elif op in ("map.metadata", "map.metadata_in_set"):
+        a = dict(unicode=rng.random() < 0.5)
+    elif op in ("map.describe", "mapset.describe", "map.describe_in_set"):
+        a = dict(rounding=rng.choice([2, 0]), unicode=rng.random() < 0.5)
+    elif op == "mapset.getitem":
+        a = dict(what=rng.choice(["int", "hits", "bpms", "NoteList"]), i=rng.randrange(0, 4))
+    elif op == "ptn.v_mask":
+        a = dict(offset=g_off(rng), v=rng.choice([0, 50, 1000]), jack=rng.random() < 0.5)
+    elif op == "ptn.h_mask":
+        a = dict(column=rng.randrange(0, 8), h=rng.choice([0, 1, 2]))
     elif op in ("map.rate", "mapset.rate"):
         a = dict(by=rng.choice([0.5, 2, 1.25, 1, 0.75]))
     elif op == "alg.full_ln":
@@ -357,7 +438,7 @@ def gen(rng, tier, i):
     for _ in range(nsteps):
         ops = applicable_ops(game, kinds)
         # favour the non-list operations a little: there are many list ops
-        heavy = [o for o in ops if not o.startswith("list.")]
+        heavy = [o for o in ops if not is_listop(o)]
         heavy += [o for o in heavy if o.startswith("ptn.g")] * 4 + [o for o in heavy if o.startswith("ptn.c")] * 12
         ops = ops + [o for o in ops if o == "list.append"] * 2       # four kinds of appended value
         op = rng.choice(heavy) if heavy and rng.random() < 0.55 else rng.choice(ops)
@@ -394,6 +475,13 @@ def _st(op, src=0, other=0, recent=False, **args):
 
 def _lst(cols, labels="range"):
     return dict(cols=cols, labels=labels)
+
+
+def bms_empty_holds():
+    return dict(lists=dict(hits=dict(cols=dict(offset=[0, 0], column=[0, 0], sample=["01", "03"]), labels=[0, 1], build="empty"),
+                           holds=_lst(dict(offset=[], column=[], length=[], sample=[])),
+                           bpms=_lst(dict(offset=[0, 0], bpm=[120, 120], metronome=[4, 4]), [0, 1])),
+                meta=dict(title="S", artist="a", version="v"))
 
 
 def corpus():
@@ -463,6 +551,32 @@ def corpus():
                            bpms=_lst(dict(offset=[0], bpm=[120])), svs=_lst(dict(offset=[], multiplier=[]))),
                 meta=dict(title="k", mode="Keys4", tags=[]))
     c.append(_h("quaver", 4, [quak], [_st("write.quaver"), _st("map.rate", by=2), _st("write.quaver", recent=True), _st("map.deepcopy")]))
+    # mutable state at depth >= 2 inside object cells: key sound RECORDS (what `QuaMap.read` hands over), records that
+    # hold lists / records (what a client may build); every operation built on the list-level deep copy, on a built
+    # chart and on one that came through the reader
+    rec = lambda s_, v_: dict(Sample=s_, Volume=v_)
+    for via in ("build", "read"):
+        quar = dict(lists=dict(hits=_lst(dict(offset=[0, 500, 1000], column=[0, 1, 2],
+                                              keysounds=[[rec(1, 80), rec(2, 40)], [], ["a.ogg"]])),
+                               holds=_lst(dict(offset=[1000, 2500], column=[2, 0], length=[800, 100], keysounds=[[rec(2, 55)], []])),
+                               bpms=_lst(dict(offset=[0], bpm=[120])), svs=_lst(dict(offset=[0], multiplier=[1]))),
+                    meta=dict(title="r", mode="Keys4", tags=["p"]), via=via)
+        c.append(_h("quaver", 4, [quar], [_st("list.deepcopy", src=0), _st("list.move_start_to", src=0, to=100, at="any"),
+                                           _st("list.move_end_to", src=1, to=5000, at="any"), _st("map.deepcopy"),
+                                           _st("map.rate", by=2), _st("alg.full_ln", gap=150, thres=100),
+                                           _st("map.rate", recent=True, by=0.5), _st("write.quaver")]))
+    quan = dict(lists=dict(hits=_lst(dict(offset=[0, 500], column=[0, 1],
+                                          keysounds=[[dict(Sample=1, Volume=80, Layers=["a.ogg", "b.ogg"])],
+                                                     [dict(Sample=2, Opt=dict(Pan=5, Fx=[1]))]])),
+                           holds=_lst(dict(offset=[1000], column=[2], length=[800], keysounds=[[["z.wav", [3]]]])),
+                           bpms=_lst(dict(offset=[0], bpm=[120])), svs=_lst(dict(offset=[], multiplier=[]))),
+                meta=dict(title="n", mode="Keys4", tags=[]))
+    c.append(_h("quaver", 4, [quan], [_st("list.deepcopy", src=0), _st("list.move_end_to", src=1, to=100, at="any"),
+                                       _st("map.rate", by=2), _st("alg.full_ln", gap=50, thres=25), _st("map.deepcopy", recent=True)]))
+    # minimised disagreement (thorough seed 0): a column getter called twice on an EMPTY list returns the Series the frame
+    # has cached — reachable from the frame by reference only (no memory to share)
+    c.append(_h("bms", 7, [bms_empty_holds()], [_st("hold.head_offset", src=0, recent=True), _st("hold.head_offset", src=0),
+                                                 _st("list.column", src=1, i=0), _st("list.column", src=1, i=0)]))
     # move to where the list already is (first / last offset, tail included for holds), and an empty list
     c.append(_h("osu", 4, [osu1], [_st("list.move_start_to", src=0, to=0, at="first"), _st("list.move_end_to", src=0, to=0, at="last"),
                                    _st("list.move_end_to", src=1, to=0, at="last"), _st("list.move_start_to", src=1, to=0, at="same")]))
@@ -501,6 +615,8 @@ def valid(case):
             return False
         for m in case["maps"]:
             if set(m["lists"]) != set(SLOTS[case["game"]]):
+                return False
+            if m.get("via", "build") not in ("build", "read"):
                 return False
             for slot, l in m["lists"].items():
                 n = len(l["cols"]["offset"])
@@ -550,7 +666,7 @@ def build_list(cls, spec):
             if c == "sample" and dt == object or (c == "sample" and vals and isinstance(vals[0], str)):
                 vals = [v.encode("ascii") for v in vals]
             if c == "keysounds":
-                vals = [[dict(x) if isinstance(x, dict) else x for x in v] for v in vals]
+                vals = [_fresh(v) for v in vals]
         else:
             d = defaults.get(c)
             vals = [list(d) if isinstance(d, list) else d for _ in range(n)]
@@ -579,6 +695,15 @@ def build_list(cls, spec):
     return tl
 
 
+def _fresh(v):
+    """the case's JSON value as objects of its own (no object of the case is handed to the code)"""
+    if isinstance(v, list):
+        return [_fresh(x) for x in v]
+    if isinstance(v, dict):
+        return {k: _fresh(x) for k, x in v.items()}
+    return v
+
+
 def build_map(game, spec):
     k = K(game)
     m = k["map"]()
@@ -592,6 +717,11 @@ def build_map(game, spec):
         if isinstance(v, list):
             v = list(v)
         setattr(m, key, v)
+    if game == "quaver" and spec.get("via") == "read":
+        try:
+            m = k["map"].read(m.write().split("\n"))
+        except Exception:
+            pass                  # not every generated chart has a text the reader takes; the built chart is used then
     return m
 
 
@@ -839,16 +969,89 @@ def aliased(a, b):
 
 # ============================================================================================ in-place mutation probe
 
+MARK = "~c14~"
+
+
+def _changed(x):
+    """a value of the same kind as x that differs from it (what a client's edit of a record looks like)"""
+    if isinstance(x, bool):
+        return not x
+    if isinstance(x, (int, float)):
+        return x + 1
+    if isinstance(x, str):
+        return x + "~"
+    if isinstance(x, bytes):
+        return x + b"~"
+    return MARK
+
+
+def _is_mut(x):
+    return isinstance(x, (list, dict, set))
+
+
+def has_nested(v):
+    """a cell object that holds further mutable objects (depth >= 2: records of a key sound list, lists in records)"""
+    if isinstance(v, list):
+        return any(_is_mut(x) for x in v)
+    if isinstance(v, dict):
+        return any(_is_mut(x) for x in v.values())
+    return False
+
+
+def edit_inside(v, undo, seen, top=True):
+    """the client edits a cell object IN PLACE at every depth: every element / value that is itself mutable is edited
+    recursively (a record of a key sound list: every field gets another value, a field is added; a list inside a
+    record: elements replaced, one appended), scalar elements are replaced by different ones.  The top-level
+    object's own membership is left to the caller (`top`)."""
+    if id(v) in seen:
+        return
+    seen.add(id(v))
+    if isinstance(v, list):
+        for i, x in enumerate(list(v)):
+            if _is_mut(x):
+                edit_inside(x, undo, seen, False)
+            else:
+                undo.append(("set", v, i, x))
+                v[i] = _changed(x)
+        if not top:
+            v.append(MARK)
+            undo.append(("list", v, None))
+    elif isinstance(v, dict):
+        for k, x in list(v.items()):
+            if _is_mut(x):
+                edit_inside(x, undo, seen, False)
+            else:
+                undo.append(("set", v, k, x))
+                v[k] = _changed(x)
+        if not top:
+            v[MARK] = 1
+            undo.append(("dict", v, None))
+    elif isinstance(v, set):
+        if not top:
+            v.add(MARK)
+            undo.append(("setadd", v, None))
+
+
 def mutate_result(cells, heap, deep):
-    """in-place change of every buffer / container of the given cells; returns an undo list"""
+    """in-place change of every buffer / container of the given cells; returns an undo list.
+    deep = False: numeric buffers bumped, object cells REPLACED, containers get a member;
+    deep = True: the cell objects themselves (lists inside object columns) get a member;
+    deep = "nested": everything INSIDE the cell objects and inside the containers is edited at every depth."""
     import numpy as np
     import pandas as pd
     undo = []
+    seen = set()
     for r in cells:
         o = heap.objs[r]
         if is_leaf(o):
             for buf in buffers(o):
                 if buf.size == 0:
+                    continue
+                if deep == "nested":
+                    if buf.dtype == object:
+                        for v in buf.reshape(-1).tolist():
+                            if _is_mut(v):
+                                edit_inside(v, undo, seen, True)
                     continue
                 if not buf.flags.writeable:
                     continue
@@ -859,11 +1062,18 @@ def mutate_result(cells, heap, deep):
                 else:
                     _bump(buf, deep, undo)
                 undo.append(("buf", buf, saved))
+        elif deep == "nested":
+            if isinstance(o, (list, dict)):
+                # members that are cells themselves are edited as cells of the result; scalars are replaced here
+                for k, x in (list(enumerate(o)) if isinstance(o, list) else list(o.items())):
+                    if not is_cell(x) and not isinstance(x, tuple):
+                        undo.append(("set", o, k, x))
+                        o[k] = _changed(x)
         elif isinstance(o, list):
-            o.append("~c14~")
+            o.append(MARK)
             undo.append(("list", o, None))
         elif isinstance(o, dict):
-            o["~c14~"] = 1
+            o[MARK] = 1
             undo.append(("dict", o, None))
     return undo
 
@@ -875,16 +1085,18 @@ def _bump(buf, deep, undo):
     elif buf.dtype.kind in "iuf":
         buf += 1
     elif buf.dtype == object:
-        flat = buf.reshape(-1) if buf.flags.c_contiguous else None
         it = np.nditer(buf, flags=["refs_ok", "multi_index"])
         for _ in it:
             ix = it.multi_index
             v = buf[ix]
             if isinstance(v, list) and deep:
-                v.append("~c14~")                 # the cell object itself (deep copies must not share it)
+                v.append(MARK)                 # the cell object itself (deep copies must not share it)
                 undo.append(("list", v, None))
+            elif isinstance(v, dict) and deep:
+                v[MARK] = 1
+                undo.append(("dict", v, None))
             elif isinstance(v, list):
-                buf[ix] = list(v) + ["~c14~"]
+                buf[ix] = list(v) + [MARK]
             elif isinstance(v, str):
                 buf[ix] = v + "~"
             elif isinstance(v, bytes):
@@ -892,20 +1104,25 @@ def _bump(buf, deep, undo):
             elif isinstance(v, type):
                 buf[ix] = int
             else:
-                buf[ix] = "~c14~"
+                buf[ix] = MARK
     elif buf.dtype.kind in "SU":
         buf[...] = "~"
 
 
 def undo_mutation(undo):
-    for kind, o, saved in reversed(undo):
+    for ent in reversed(undo):
+        kind, o = ent[0], ent[1]
         if kind == "buf":
-            o[...] = saved
+            o[...] = ent[2]
         elif kind == "list":
-            if o and o[-1] == "~c14~":
+            if o and o[-1] == MARK:
                 o.pop()
         elif kind == "dict":
-            o.pop("~c14~", None)
+            o.pop(MARK, None)
+        elif kind == "setadd":
+            o.discard(MARK)
+        elif kind == "set":
+            o[ent[2]] = ent[3]
 
 
 # ============================================================================================ operations
@@ -940,11 +1157,89 @@ def prepare_call(step, pool):
     maps = lambda g=None: [e for e in pool if e["kind"] == "map" and (g is None or e["game"] == g)]
     sets = lambda g=None: [e for e in pool if e["kind"] == "mapset" and (g is None or e["game"] == g)]
 
-    if op.startswith("list."):
+    if is_listop(op):
         ls = list_operands(pool)
+        if op.startswith("hold."):
+            ls = [(g, x) for g, x in ls if hasattr(type(x), "tail_offset")]
+        if op.startswith("bpm."):
+            ls = [(g, x) for g, x in ls if hasattr(type(x), "snap_offsets")]
         if not ls:
             raise Skip()
         game, tl = pick(ls, step["src"], step.get("recent", False))
+        val = lambda r: [dict(kind="value", game=game, obj=r)]
+        if op == "list.getitem_int":
+            if len(tl) == 0:
+                raise Skip()
+            return [tl], (lambda: tl[a["i"] % len(tl)]), val
+        if op == "list.iter":
+            return [tl], (lambda: list(iter(tl))), val
+        if op == "list.from_dict":
+            keep = ["offset"] + [c for i, c in enumerate(tl.df.columns) if c != "offset" and (a["cols"] >> (i % 12)) & 1]
+            sub = tl.df[keep].iloc[: a["rows"]]
+            d = sub.to_dict("records") if a["rows_form"] else sub.to_dict("list")
+            cls = type(tl)
+            return [d], (lambda: cls.from_dict(d)), lambda r: [dict(kind="list", game=game, obj=r)]
+        if op == "list.empty":
+            cls = type(tl)
+            return [], (lambda: cls.empty(a["rows"])), lambda r: [dict(kind="list", game=game, obj=r)]
+        if op == "list.df":
+            return [tl], (lambda: tl.df), val
+        if op == "list.column":
+            col = list(tl.df.columns)[a["i"] % len(tl.df.columns)]
+            return [tl], (lambda: getattr(tl, col)), val
+        if op == "list.iloc":
+            if a["fancy"]:
+                ix = [i for i in range(a["a"], a["b"]) if i < len(tl)]
+                return [tl], (lambda: tl.iloc[ix]), val
+            return [tl], (lambda: tl.iloc[a["a"]:a["b"]]), val
+        if op == "list.loc":
+            labels = list(tl.df.index[a["a"]:a["b"]])
+            if a["fancy"] or not labels:
+                return [tl], (lambda: tl.loc[labels]), val
+            return [tl], (lambda: tl.loc[labels[0]:labels[-1]]), val
+        if op == "list.to_numpy":
+            return [tl], (lambda: tl.to_numpy()), val
+        if op == "list.describe":
+            return [tl], (lambda: tl.describe()), val
+        if op in ("list.first_offset", "list.last_offset", "list.first_last_offset"):
+            name = op.split(".")[1]
+            return [tl], (lambda: getattr(tl, name)()), val
+        if op == "list.time_diff":
+            return [tl], (lambda: tl.time_diff(a["last"])), val
+        if op == "list.len":
+            return [tl], (lambda: len(tl)), val
+        if op == "list.repr":
+            return [tl], (lambda: repr(tl)), val
+        if op == "list.cmp":
+            import operator
+            other = tl if a["self_"] else pick([x for g, x in ls if type(x) is type(tl)], step["other"])
+            f = getattr(operator, a["rel"])
+            return [tl, other], (lambda: f(tl, other)), val
+        if op in ("hold.head_offset", "hold.tail_offset"):
+            name = op.split(".")[1]
+            return [tl], (lambda: getattr(tl, name)), val
+        if op == "bpm.current_bpm":
+            return [tl], (lambda: tl.current_bpm(a["offset"], sort=a["sort"])), val
+        if op == "bpm.snap_offsets":
+            return [tl], (lambda: tl.snap_offsets(nths=a["nths"], last_offset=a["last"])), val
+        if op == "bpm.to_timing_map":
+            # the result holds the process-wide default Snapper: it is handed over as the second (implicit) argument
+            from reamber.algorithms.timing.TimingMap import TimingMap
+            return [tl, getattr(TimingMap, "snapper", None)], (lambda: tl.to_timing_map()), val
+        if op == "bpm.ave_bpm":
+            return [tl], (lambda: tl.ave_bpm(a["last"])), val
+        if op == "list.cast":
+            from reamber.algorithms.convert.ConvertBase import ConvertBase
+            # the converters' helper: source list, target class, the caller's renaming dict (names or literal columns)
+            slot = next((sl for sl, c in K(game)["lists"].items() if c is type(tl)), None)
+            tgt = K(a["target"])["lists"].get(slot)
+            if tgt is None:
+                raise Skip()
+            common = [c for c in tl.df.columns if c in tgt([]).df.columns]
+            mapping = {c: c for c in common}
+            if a["literal"] and len(common) > 1:
+                mapping[common[-1]] = tl.df[common[-1]].to_numpy()
+            return [tl, mapping], (lambda: ConvertBase.cast(tl, tgt, mapping)), lambda r: [dict(kind="list", game=a["target"], obj=r)]
         hold = hasattr(tl, "tail_offset")
         lst = lambda r: [dict(kind="list", game=game, obj=r)]
         if op == "list.after":
@@ -1027,6 +1322,106 @@ def prepare_call(step, pool):
         e = pick(ss, step["src"], step.get("recent", False))
         f = (lambda: e["obj"].deepcopy()) if op == "mapset.deepcopy" else (lambda: e["obj"].rate(a["by"]))
         return [e["obj"]], f, lambda r: set_entries(e["game"], r)
+    if op in MAP_OPS:
+        e = map_of()
+        m = e["obj"]
+        val = lambda r: [dict(kind="value", game=e["game"], obj=r)]
+        if op == "map.getitem":
+            from reamber.base.lists.TimedList import TimedList
+            from reamber.base.lists.notes.NoteList import NoteList
+            w = a["what"]
+            if w == "notes":
+                return [m], (lambda: m.notes), val
+            if w.startswith("p_"):
+                return [m], (lambda: getattr(m, w[2:])), val
+            cls = NoteList if w == "NoteList" else TimedList if w == "TimedList" else K(e["game"])["lists"][w]
+            return [m], (lambda: m[cls]), val
+        if op == "map.repr":
+            return [m], (lambda: repr(m)), val
+        if op in ("map.metadata", "map.describe", "map.metadata_in_set", "map.describe_in_set"):
+            import contextlib
+            import inspect
+            import io
+            meth = getattr(m, op.split(".")[1].replace("_in_set", ""))
+            params = inspect.signature(meth).parameters
+            kw = {k_: a[k_] for k_ in ("unicode", "rounding") if k_ in a and k_ in params}
+            objs = [m]
+            if op.endswith("_in_set"):
+                owner = next((x["obj"] for x in sets(e["game"]) if any(y is m for y in x["obj"].maps)), None)
+                name = next((k_ for k_ in ("s", "ms") if k_ in params), None)
+                if owner is None or name is None:
+                    raise Skip()
+                kw[name] = owner
+                objs.append(owner)
+            def f():
+                with contextlib.redirect_stdout(io.StringIO()):
+                    return meth(**kw)
+            return objs, f, val
+        if op == "map.stack":
+            return [m], (lambda: m.stack()), val
+    if op in SET_OPS:
+        ss = sets()
+        if not ss:
+            raise Skip()
+        e = pick(ss, step["src"], step.get("recent", False))
+        st = e["obj"]
+        val = lambda r: [dict(kind="value", game=e["game"], obj=r)]
+        if op == "mapset.iter":
+            return [st], (lambda: list(iter(st))), val
+        if op == "mapset.items":
+            return [st], (lambda: list(st.items())), val
+        if op == "mapset.getitem":
+            from reamber.base.lists.notes.NoteList import NoteList
+            w = a["what"]
+            if w == "int":
+                if not st.maps:
+                    raise Skip()
+                key = a["i"] % len(st.maps)
+            else:
+                key = NoteList if w == "NoteList" else K(e["game"])["lists"][w]
+            return [st], (lambda: st[key]), val
+        if op == "mapset.describe":
+            import contextlib
+            import io
+            def f():
+                with contextlib.redirect_stdout(io.StringIO()):
+                    return st.describe(rounding=a["rounding"], unicode=a["unicode"])
+            return [st], f, val
+        if op == "mapset.stack":
+            return [st], (lambda: st.stack()), val
+        if op == "mapset.repr":
+            return [st], (lambda: repr(st)), val
+    if op.startswith("write_file."):
+        import tempfile
+        g = op.split(".")[1]
+        if WRITERS[g] == "mapset":
+            ss = sets(g)
+            if not ss:
+                raise Skip()
+            e = pick(ss, step["src"], step.get("recent", False))
+        else:
+            e = map_of((g,))
+        def f():
+            with tempfile.TemporaryDirectory(prefix="c14-") as d:
+                path = os.path.join(d, "chart." + dict(osu="osu", quaver="qua", sm="sm", bms="bms")[g])
+                r = e["obj"].write_file(path)
+                with open(path, "rb") as fh:
+                    return (r, len(fh.read()))
+        return [e["obj"]], f, lambda r: [dict(kind="value", game=g, obj=r)]
+    if op in ("ptn.len", "ptn.v_mask", "ptn.h_mask"):
+        from reamber.algorithms.pattern.Pattern import Pattern
+        ps = [e for e in pool if e["kind"] == "pattern"]
+        if not ps:
+            raise Skip()
+        e = pick(ps, step["src"], step.get("recent", False))
+        ptn = e["obj"]
+        val = lambda r: [dict(kind="value", game=e["game"], obj=r)]
+        if op == "ptn.len":
+            return [ptn], (lambda: len(ptn)), val
+        ar = ptn.df.to_records(index=False)          # the caller's own record array, as `group` builds it
+        if op == "ptn.v_mask":
+            return [ar], (lambda: Pattern.v_mask(ar, a["offset"], a["v"], a["jack"])), val
+        return [ar], (lambda: Pattern.h_mask(ar, a["column"], a["h"])), val
     if op == "alg.full_ln":
         from reamber.algorithms.generate.full_ln import full_ln
         e = map_of()
@@ -1138,6 +1533,17 @@ def arg_closure(o, heap):
     reaches the frame whose buffers it aliases"""
     cells = [[p, r] for p, r in walk(o, heap)]
     have = {r for _, r in cells}
+    # a frame keeps the column Series it has handed out (pandas' item cache): `tl.offset` twice is the same object.
+    # Such a Series is reachable from the frame by reference, also when the frame is empty and no memory is shared.
+    import pandas as pd
+    for p, r in list(cells):
+        fr = heap.objs[r]
+        if isinstance(fr, pd.DataFrame):
+            for ser in list(getattr(fr, "_item_cache", {}).values()):
+                q = heap.by_id.get(id(ser))
+                if q is not None and q not in have:
+                    have.add(q)
+                    cells.append([p + "~cache", q])
     for p, r in list(cells):
         if not is_leaf(heap.objs[r]):
             continue
@@ -1240,6 +1646,19 @@ def observe(case):
                     alias.append(q)
         # cell objects (lists / dicts inside object columns) of the result that are cells of the heap already — the
         # class-level defaults — make that old cell reachable from the result; one object in several rows is tagged
+        # A result that is NOT made by deepcopy (filter, sort, append, …) holds the cell objects of its arguments'
+        # frames by design (a new frame, the same per-note lists): those are not counted, whatever else made them
+        # cells of the heap (e.g. a client's dict handed to `from_dict` earlier).
+        sig0 = _TABLE.get(op)
+        arg_cellobjs = set()
+        if not (sig0 and sig0["deep"]):
+            for cells in arg_cells:
+                for _, r in cells:
+                    o = heap.objs[r]
+                    if is_leaf(o):
+                        for buf in buffers(o):
+                            if buf.dtype == object:
+                                arg_cellobjs.update(id(v) for v in buf.reshape(-1).tolist() if isinstance(v, (list, dict, set)))
         for r in res_cells:
             o = heap.objs[r]
             if r < n or not is_leaf(o):
@@ -1251,7 +1670,7 @@ def observe(case):
                         if isinstance(v, (list, dict, set)):
                             ids.append(id(v))
                             q = heap.by_id.get(id(v))
-                            if q is not None and q < n and q not in ret:
+                            if q is not None and q < n and q not in ret and id(v) not in arg_cellobjs:
                                 ret.append(q)
                                 alias.append(q)
             if len(set(ids)) < len(ids):
@@ -1275,12 +1694,22 @@ def observe(case):
                     ev["after_deep"] = snap()[:len(after_all)]
                 finally:
                     undo_mutation(undo)
+                # probe 3 (results made by deepcopy): everything INSIDE the cell objects and containers, at every
+                # depth — a record of a key sound list gets other field values and a new field, a list inside a
+                # record other elements; scalar members of lists / dicts are replaced
+                undo = mutate_result(res_cells, heap, deep="nested")
+                if undo:
+                    tags.append("probe:nested")
+                    try:
+                        ev["after_nested"] = snap()[:len(after_all)]
+                    finally:
+                        undo_mutation(undo)
             if snap()[:len(after_all)] != after_all:
                 tags.append("restore-failed")
         events.append(ev)
         known = len(heap.objs)
         tags.append(op)
-        if op.startswith("list."):
+        if is_listop(op) and args:
             tags.append("cls:" + type(args[0]).__name__)
         if any(len(frames[before[r]]["rows"]) > 0 for cells in arg_cells for _, r in cells if is_leaf(heap.objs[r])):
             nonempty = True
@@ -1309,7 +1738,7 @@ def run(case, drv):
                 agree = False
                 bad.append(dict(step=ev["step"], op=ev["sig"], raised=ev["raised"], changed=v["written"]))
             continue
-        e_ok = v["frame_ok"] and v["fresh_ok"] and v["mut_ok"] and v["deep_ok"]
+        e_ok = v["frame_ok"] and v["fresh_ok"] and v["mut_ok"] and v["deep_ok"] and v["nested_ok"]
         if not e_ok:
             ok = False
             kf_e = None          # D38 / D39 are repaired: no open finding touches this property
@@ -1317,7 +1746,8 @@ def run(case, drv):
             bad.append(dict(step=ev["step"], op=ev["sig"], frame_ok=v["frame_ok"], fresh_ok=v["fresh_ok"], mut_ok=v["mut_ok"],
                             deep_ok=v["deep_ok"], written=_name_refs(ev, v["written"]), shared=_name_refs(ev, v["shared"]),
                             reached_by_mutation=_name_refs(ev, v["mut_changed"]),
-                            reached_through_cell_objects=_name_refs(ev, v["deep_changed"]), kf=kf_e, diff=_diff(obs, ev, v)))
+                            reached_through_cell_objects=_name_refs(ev, v["deep_changed"]), nested_ok=v["nested_ok"],
+                            reached_through_nested_values=_name_refs(ev, v["nested_changed"]), kf=kf_e, diff=_diff(obs, ev, v)))
         if not v["within"] or not v["known"] or not v["mut_within"]:
             agree = False
             if e_ok:
@@ -1354,10 +1784,11 @@ def _diff(obs, ev, v):
     """first differing cell, for the replay's detail"""
     fr = obs["frames"]
     out = []
-    for r in (v["written"] + v["mut_changed"] + v["deep_changed"])[:2]:
+    for r in (v["written"] + v["mut_changed"] + v["deep_changed"] + v["nested_changed"])[:2]:
         b0 = fr[ev["before"][r]] if r < len(ev["before"]) else None
         b = fr[ev["after"][r]] if r < len(ev["after"]) else None
-        src = ev.get("after_mut") if r in v["mut_changed"] else ev.get("after_deep") if r in v["deep_changed"] else None
+        src = ev.get("after_mut") if r in v["mut_changed"] else ev.get("after_deep") if r in v["deep_changed"] \
+            else ev.get("after_nested") if r in v["nested_changed"] else None
         out.append(dict(ref=r, before=_short(b0), after_call=_short(b) if b != b0 else "same",
                         after_mutating_result=_short(fr[src[r]]) if src else None))
     return out
